@@ -1,10 +1,15 @@
 #!/bin/sh
-# builds ./driver from the extracted modules in gen/ and drv.ml, cmd_*.ml, zmain.ml
+# builds ./driver<suffix> from the extracted modules in gen<suffix>/ and drv.ml, cmd_*.ml, zmain.ml
+# usage: build.sh [suffix [part ...]]   (parts given: only cmd_<part>.ml are linked)
 set -e
 cd "$(dirname "$0")"
-rm -rf _b && mkdir _b && cp gen/*.ml gen/*.mli drv.ml cmd_*.ml _b/
-cd _b
+SUF="$1"
+[ $# -gt 0 ] && shift
+B=_b$SUF
+rm -rf $B && mkdir $B && cp gen$SUF/*.ml gen$SUF/*.mli drv.ml $B/
+if [ $# -gt 0 ]; then for p in "$@"; do [ -f cmd_$p.ml ] && cp cmd_$p.ml $B/; done; else cp cmd_*.ml $B/; fi
+cd $B
 FILES=$(ocamlfind ocamldep -sort *.mli *.ml)
 cp ../zmain.ml .
-ocamlfind ocamlopt -O2 -w -a $FILES zmain.ml -o ../driver 2>&1 | grep -v "^$" || true
-test -x ../driver
+ocamlfind ocamlopt -O2 -w -a $FILES zmain.ml -o ../driver$SUF 2>&1 | grep -v "^$" || true
+test -x ../driver$SUF
